@@ -671,10 +671,40 @@ func C07(c *vf.Ctx) {
 			{Small: false, Soft: true, Manual: true, Threads: thr3},
 			{Small: true, Soft: false, Threads: thr3},
 			{Small: true, Soft: true, Points: []string{"manager.newstream.beforeset", "conn.created"}, Threads: thr3},
+			{Small: true, Soft: true, GateU: true, Threads: thr3},
 		},
-		kinds:   []string{"start", "hstep", "relw", "relwerr", "deliver", "cancel", "point"},
-		weights: map[string]int{"invoke": 3, "newstream": 3, "op": 10, "hstep": 5, "relw": 8, "deliver": 6, "cancel": 3, "point": 3, "relwerr": 1},
+		kinds:   []string{"start", "hstep", "relw", "relwerr", "deliver", "cancel", "point", "relu"},
+		weights: map[string]int{"invoke": 3, "newstream": 3, "op": 10, "hstep": 5, "relw": 8, "deliver": 6, "cancel": 3, "point": 3, "relwerr": 1, "relu": 3},
 		tail: func(w *sys.World, rng *rand.Rand, ts *tailState) {
+			if w.Cfg.GateU && rng.Intn(2) == 0 {
+				// directed: the application's SendError is inside the user's Error() method (after the state transition,
+				// before the packet is written) while another goroutine starts the next RPC
+				if t := w.FreeThread(); t != "" && w.NRPC() < sys.MaxRPC-1 && w.Step(sys.Stim{K: "start", T: t, Op: "NewStream", Md: "none"}) {
+					r := w.NRPC()
+					for i := 0; i < 4 && !w.HasStream(r); i++ {
+						w.Flow(10, nil)
+						for _, u := range append(append([]string{}, w.Cfg.Threads...), "sv") {
+							w.Step(sys.Stim{K: "relu", T: u})
+							w.Step(sys.Stim{K: "relm", T: u})
+						}
+					}
+					if w.HasStream(r) {
+						et, nt := w.FreeThread(), ""
+						if et != "" && w.Step(sys.Stim{K: "op", T: et, Op: "SendErr", R: r}) {
+							if nt = w.FreeThread(); nt != "" {
+								w.Step(sys.Stim{K: "start", T: nt, Op: []string{"Invoke", "NewStream"}[rng.Intn(2)], Md: "none"})
+								w.Flow(6, nil)
+							}
+							w.Step(sys.Stim{K: "relm", T: et})
+							w.Flow(20, nil)
+						}
+					}
+				}
+			}
+			for _, t := range append(append([]string{}, w.Cfg.Threads...), "sv") {
+				w.Step(sys.Stim{K: "relu", T: t})
+				w.Step(sys.Stim{K: "relm", T: t})
+			}
 			for _, t := range w.Cfg.Threads {
 				w.Step(sys.Stim{K: "point", T: t})
 			}
@@ -710,6 +740,9 @@ func C01(c *vf.Ctx) {
 		kinds:   []string{"start", "hstep", "relw", "deliver", "relu", "cancel"},
 		weights: map[string]int{"newstream": 2, "invoke": 1, "op": 10, "hstep": 8, "relw": 10, "deliver": 10, "relu": 4, "cancel": 1},
 		tail: func(w *sys.World, rng *rand.Rand, ts *tailState) {
+			if w.Cfg.GateU && rng.Intn(2) == 0 {
+				lentBufferScenario(w, rng)
+			}
 			// graceful end: everything flows, both sides half-close, receivers drain
 			for i := 0; i < 6; i++ {
 				for _, t := range append(append([]string{}, w.Cfg.Threads...), "sv") {
@@ -728,6 +761,87 @@ func C01(c *vf.Ctx) {
 	}
 	runSysFamily(c, fam, nT, nR)
 	c.Cov["rule"] = "bidirectional streaming and unary workloads with up to three client goroutines (one- and two-frame messages, receives, half-close, close), handler sends/receives, every write parked and released individually, deliveries delayed arbitrarily, the receiver's Unmarshal gated (lent-buffer window); five configurations of writer buffer / manual flush / soft cancel. Monitors on the real observations: received multiset = first k submitted (wire order) at every quiescence, no duplicates, all frames on the transport when MsgSend returns nil. Every run validated against SystemTrace.tla."
+}
+
+// lentBufferScenario (directed, Appendix D.3): a receiver is inside the user's Unmarshal, holding the buffer the
+// reader lent it, while the stream is terminated by some closer and the peer's next message arrives.
+func lentBufferScenario(w *sys.World, rng *rand.Rand) {
+	relAll := func() {
+		for _, t := range append(append([]string{}, w.Cfg.Threads...), "sv") {
+			w.Step(sys.Stim{K: "relu", T: t})
+		}
+	}
+	// a fresh streaming RPC whose handler is at its gate
+	relAll()
+	endAll(w, func(w *sys.World) string { relAll(); return "retnil" })
+	t := w.FreeThread()
+	if t == "" || w.NRPC() >= sys.MaxRPC || !w.Step(sys.Stim{K: "start", T: t, Op: "NewStream", Md: "none"}) {
+		return
+	}
+	r := w.NRPC()
+	for i := 0; i < 4 && !strings.HasPrefix(w.Last().App["sv"], "h:"); i++ {
+		w.Flow(20, nil)
+		relAll()
+	}
+	if !strings.HasPrefix(w.Last().App["sv"], "h:") || !w.HasStream(r) {
+		return
+	}
+	if rng.Intn(2) == 0 {
+		// server -> client: two messages on their way, the client's first receive parks in Unmarshal
+		w.Step(sys.Stim{K: "hstep", A: "send1"})
+		w.Flow(4, nil)
+		rt := w.FreeThread()
+		if rt == "" || !w.Step(sys.Stim{K: "op", T: rt, Op: "Recv", R: r}) {
+			return
+		}
+		w.Flow(6, nil) // first message reaches the receiver, which parks in um
+		w.Step(sys.Stim{K: "hstep", A: "send1"})
+		for i := 0; i < 3 && w.SP.WritePending(); i++ {
+			w.Step(sys.Stim{K: "relw", E: "srv", How: "ok"})
+		}
+		// the closer
+		switch rng.Intn(3) {
+		case 0:
+			w.Step(sys.Stim{K: "cancel", R: r})
+		case 1:
+			if ct := w.FreeThread(); ct != "" {
+				w.Step(sys.Stim{K: "op", T: ct, Op: "Close", R: r})
+			}
+		case 2:
+			if ct := w.FreeThread(); ct != "" {
+				w.Step(sys.Stim{K: "op", T: ct, Op: "CloseSend", R: r})
+			}
+		}
+		w.Flow(10, nil) // the next message arrives while the buffer is still lent
+		w.Step(sys.Stim{K: "relu", T: rt})
+		w.Flow(10, nil)
+	} else {
+		// client -> server: the handler's receive parks in Unmarshal
+		st := w.FreeThread()
+		if st == "" || !w.Step(sys.Stim{K: "op", T: st, Op: "Send1", R: r}) {
+			return
+		}
+		w.Flow(4, nil)
+		w.Step(sys.Stim{K: "hstep", A: "recv"})
+		w.Flow(6, nil)
+		if st2 := w.FreeThread(); st2 != "" {
+			w.Step(sys.Stim{K: "op", T: st2, Op: "Send1", R: r})
+			for i := 0; i < 3 && w.CP.WritePending(); i++ {
+				w.Step(sys.Stim{K: "relw", E: "cli", How: "ok"})
+			}
+		}
+		switch rng.Intn(2) {
+		case 0:
+			w.Step(sys.Stim{K: "cancel", R: r}) // soft: a cancel packet follows; hard: disconnect
+		case 1:
+			if ct := w.FreeThread(); ct != "" {
+				w.Step(sys.Stim{K: "op", T: ct, Op: "Close", R: r})
+			}
+		}
+		w.Flow(12, nil)
+		w.Step(sys.Stim{K: "relu", T: "sv"})
+		w.Flow(10, nil)
+	}
 }
 
 // ---------------------------------------------------------------------------------------------------
